@@ -22,7 +22,9 @@ META = dict(
                "in Coq and compared with the real _tcp_outgoing / on_decider_update / _tcp_incoming_handle_client "
                "(driven single-threaded with scripted socket and clock) on an exhaustive grid around every "
                "threshold and on random histories, after inferring the convention the code uses from its "
-               "behaviour exactly at the thresholds; an independent oracle checks the documented table, the "
+               "behaviour exactly at the thresholds and the step order (queued change taken at the first SYNC, or once "
+               "at the start of the iteration as after the D9 fix; all theorems hold for both) from whether the item "
+               "leaves the queue when no SYNC goes out; an independent oracle checks the documented table, the "
                "bookkeeping, retry spacing, flag rule and reset rule on the implementation alone.",
     level_note="Trusted: Coq kernel/vm_compute; harness (out_driver.py: budgeted _thread_closed, fake socket/time "
                "modules, decoding of the bytes handed to sendall with the same crypto object). Sequential only: "
@@ -130,13 +132,13 @@ def c_act(a, n_peers):
     return "AIn %s %s %s %s" % (cnat(a[1]), zz(a[2]), zz(a[3]), zz(11 + a[1]))
 
 
-def coq_input(case, conv):
+def coq_input(case, conv, pop_first):
     cfg = case["cfg"]
     c = "(mkCfg %s (%s))" % (" ".join(zz(x) for x in cfg), ", ".join(cbool(b) for b in conv))
     ps = clist(c_peer(p, i) for i, p in enumerate(case["peers"]))
     q = clist(c_note(n) for n in case["queue"])
     acts = clist(c_act(a, len(case["peers"])) for a in case["acts"])
-    return "(%s, (%s, %s), %s)" % (c, ps, q, acts)
+    return "(%s, %s, (%s, %s), %s)" % (cbool(pop_first), c, ps, q, acts)
 
 
 # ---------------------------------------------------------------- threshold convention of the code
@@ -163,6 +165,18 @@ def infer_conv():
         conv.append(got == yes)
         notes.append("%s: %s" % (name, ">=" if got == yes else ">"))
     return tuple(conv), notes
+
+
+def infer_order():
+    """When inside an iteration the code takes the queued change (the property leaves it open): the only peer
+    is deep in its resync period, so no SYNC goes out; the item is gone afterwards iff it is taken at the
+    start of the iteration (repaired order, D9 fix) rather than at the first SYNC (pinned order)."""
+    case = dict(cfg=list(PROBE_CFG), peers=[dict(lc=0, la=0, fr=False, st=EMPTY)], queue=[QNOTE],
+                acts=[["iter", NOW, SNAP, [[0, NOW]]]])
+    _, tr = run_impl(case)
+    pop_first = tr[0]["post"]["queue"] == 0
+    return pop_first, ("queue item taken once at the start of the iteration, inside the locked decision (repaired order)"
+                       if pop_first else "queue item taken at the first SYNC of the iteration (pinned order)")
 
 
 # ---------------------------------------------------------------- the oracle (implementation only)
@@ -202,7 +216,7 @@ def oracle_iteration(cfg, step):
     now, snap, sends = act[1], act[2], act[3]
     out = []
     qe = pre["queue"] == 0
-    all_known, sync_sent = True, False
+    sync_sent = False
     for i, (p, q) in enumerate(zip(pre["peers"], post["peers"])):
         conns = [r for r in recs if r["kind"] == "connect" and r["peer"] == i]
         msgs = [r for r in recs if r["kind"] == "msg" and r["peer"] == i]
@@ -230,8 +244,6 @@ def oracle_iteration(cfg, step):
                 out.append(("untouched-peer-changed", "%s: no message, but the record changed %r -> %r" % (where, p, q)))
             continue
         modes = [msg["type"]] if msg is not None else sorted(m for m in allow if m is not None)
-        if msg is None:
-            all_known = False
         if od.SYNC in modes and msg is not None:
             sync_sent = True
         if q["la"] != max(0, now2):
@@ -261,11 +273,15 @@ def oracle_iteration(cfg, step):
             if want is not None and [msg["c"], msg["h"], msg["u"]] != [list(x) for x in want]:
                 out.append(("payload", "%s: %s carried %r, expected %r" % (where, MODE_NAME[msg["type"]],
                                                                         [msg["c"], msg["h"], msg["u"]], want)))
-    if all_known:
-        want_q = pre["queue"] - (1 if (sync_sent and pre["queue"] > 0) else 0)
-        if post["queue"] != want_q:
-            out.append(("queue-pop", "queue length %d -> %d with%s SYNC sent" % (pre["queue"], post["queue"],
-                                                                              "" if sync_sent else "out")))
+    # The property does not say when the queued change is taken (at the first SYNC or once at the start of the
+    # iteration): an iteration may take at most the one item at the head, never adds one, and must take it when
+    # a SYNC carrying it went out (that the SYNC carries exactly that item is the payload rule above).
+    taken = pre["queue"] - post["queue"]
+    if taken < 0 or taken > 1:
+        out.append(("queue-pop", "queue length %d -> %d in one iteration" % (pre["queue"], post["queue"])))
+    elif sync_sent and pre["queue"] > 0 and taken != 1:
+        out.append(("queue-pop", "queue length %d -> %d although a SYNC carrying its head was sent"
+                    % (pre["queue"], post["queue"])))
     return out
 
 
@@ -446,7 +462,9 @@ def shrink(case, sig):
 def run(ctx, res):
     rng = ctx.rng
     conv, notes = infer_conv()
+    pop_first, order_note = infer_order()
     res.extra["threshold_convention_inferred"] = notes
+    res.extra["order_inferred"] = order_note
     n_two = 2000 if ctx.quick else 8000
     n_hist = 2000 if ctx.quick else 40000
     width = 2 if ctx.quick else 3
@@ -462,7 +480,7 @@ def run(ctx, res):
     coq_cases, fails = [], []
     for case in cases:
         enc, trace = run_impl(case)
-        coq_cases.append((coq_input(case, conv), enc))
+        coq_cases.append((coq_input(case, conv, pop_first), enc))
         attempted = sum(1 for s in trace for r in s["recs"] if r["kind"] == "connect")
         res.note_case(json.dumps(case, sort_keys=True), attempted > 0)
         res.count("peers_%d" % len(case["peers"]))
@@ -496,14 +514,14 @@ def run(ctx, res):
     res.samples = [dict(case=cases[0], impl=run_impl(cases[0])[0][:40]),
                    dict(case=cases[len(CORPUS) + 7], impl=run_impl(cases[len(CORPUS) + 7])[0])]
 
-    mism, errs = common.coq_run_cases("C15", "Model.Outgoing", "run_C15",
-                                      "(tcfg * (list peer * list note) * list oact)", coq_cases)
+    mism, errs = common.coq_run_cases("C15", "Model.Outgoing", "run_C15o",
+                                      "(bool * tcfg * (list peer * list note) * list oact)", coq_cases)
     res.errors += errs
     res.traces_validated = len(coq_cases) - len(mism)
     mism.sort(key=lambda m: size_of(cases[m[0]]))
     for idx, model_out in mism[:20]:
         res.mismatches.append(dict(case=cases[idx], impl=coq_cases[idx][1], model=model_out,
-                                   convention=notes))
+                                   convention=notes, order=order_note))
     if len(mism) > 20:
         res.mismatches += [dict(case=cases[i], impl=None, model=None) for i, _ in mism[20:]]
     res.exhaustive = True
@@ -521,7 +539,9 @@ def replay(obj):
         print(json.dumps(obj, indent=1)[:3000])
         return 1 if obj.get("kind") == "unchecked" else 0
     conv, notes = infer_conv()
+    pop_first, order_note = infer_order()
     print("threshold convention of the code:", "; ".join(notes))
+    print("step order of the code:", order_note)
     print("configuration (period_ping, period_resync, attempt_stash, attempt_ping, attempt_resync):", case["cfg"])
     enc, trace = run_impl(case)
     for k, s in enumerate(trace):
@@ -533,7 +553,7 @@ def replay(obj):
             else:
                 print("    connect peer %d" % r["peer"])
         print("    after: queue=%d %s" % (s["post"]["queue"], s["post"]["peers"]))
-    model, out = common.coq_eval("C15", "Model.Outgoing", "run_C15 %s" % coq_input(case, conv))
+    model, out = common.coq_eval("C15", "Model.Outgoing", "run_C15o %s" % coq_input(case, conv, pop_first))
     print("implementation:", enc)
     print("model         :", model if model is not None else out[-1500:])
     bad = oracle_history(case, trace)
